@@ -1,6 +1,6 @@
 (* C07 -- property theorems only: statement + exact + Print Assumptions. *)
 From Coq Require Import List ZArith Reals.
-From LJT Require Import gen.GenDctConst model.Quant model.Dct proofs.QuantCert proofs.QuantProofs proofs.DctProofs proofs.DctRange proofs.RmsBound.
+From LJT Require Import gen.GenDctConst model.Quant model.Dct proofs.QuantCert proofs.QuantProofs proofs.DctProofs proofs.DctRange proofs.RmsBound gen.GenC07Ctl model.C07Ctl proofs.C07CtlProofs.
 Import ListNotations.
 Local Open Scope Z_scope.
 
@@ -121,6 +121,47 @@ Theorem C07_fix_constants :
   fdct_fix_table = idct_fix_table.
 Proof. exact (conj (proj1 fix_constants_ok) (conj (proj1 (proj2 fix_constants_ok)) (proj1 (proj2 (proj2 fix_constants_ok))))). Qed.
 Print Assumptions C07_fix_constants.
+
+(* ---- control rules of the compressor (facts regenerated from jccoefct.c / jcparam.c / jcmarker.c /
+   jcapistd.c / jcapimin.c by tools/gen_C07Ctl.py) ---- *)
+Theorem C07_control_rules_generated :
+  xpos_is_mcu_col_times_width = true /\ add_quant_table_resets_sent = true /\
+  emit_dqt_iff_unsent_then_marks_sent = true /\ start_compress_all_tables_unsends = true /\
+  suppress_tables_sets_every_table = true.
+Proof. repeat split; reflexivity. Qed.
+Print Assumptions C07_control_rules_generated.
+
+(* compress_data under output suspension: for EVERY suspension schedule each MCU of a row is taken
+   from sample column MCU_col_num * MCU_sample_width *)
+Theorem C07_suspension_independent : forall w n sched,
+  compress_row w n sched = map (fun i => (Z.of_nat i, Z.of_nat i * w)) (seq 0 n).
+Proof. exact suspension_independent_proof. Qed.
+Print Assumptions C07_suspension_independent.
+
+(* ... which a running offset restarted by every call does not do *)
+Theorem C07_running_offset_refuted :
+  mcu_row false 8 4 0 [] = [(0, 0); (1, 8); (2, 16); (3, 24)] /\
+  mcu_row false 8 4 0 [2%nat] = [(0, 0); (1, 8); (2, 0); (3, 8)].
+Proof. exact running_offset_refuted_proof. Qed.
+Print Assumptions C07_running_offset_refuted.
+
+(* tables used for quantisation = tables the decoder holds, for every sequence of table updates
+   (jpeg_add_quant_table / jpeg_set_quality, direct edits with sent_table = FALSE), earlier images
+   (write_all_tables TRUE or FALSE) and jpeg_write_tables on ONE compression object *)
+Theorem C07_tables_match : forall c0 d0 ops wat used,
+  (forall t tb, c0 t = Some tb -> t_sent tb = false) ->
+  let cd := step (run (c0, d0) ops) (Start wat used) in
+  forall t tb, In t used -> fst cd t = Some tb -> snd cd t = Some (t_vals tb).
+Proof. exact tables_match_proof. Qed.
+Print Assumptions C07_tables_match.
+
+(* ... and what goes wrong when jpeg_add_quant_table does not reset sent_table *)
+Theorem C07_noreset_refuted :
+  let cd := fold_left step_noreset [AddQuant 0 [16]; Start true [0%nat]; AddQuant 0 [99]; Start false [0%nat]]
+                      ((fun _ => None), (fun _ => None)) in
+  option_map t_vals (fst cd 0%nat) = Some [99] /\ snd cd 0%nat = Some [16].
+Proof. exact noreset_refuted_proof. Qed.
+Print Assumptions C07_noreset_refuted.
 
 (* non-vacuity: the configurations that exist satisfy cfg_ok; concrete round trips *)
 Example C07_cfg_ok_examples : cfg_ok cf16 /\ cfg_ok cf32 /\ cfg_ok cf12.
